@@ -17,7 +17,7 @@ def multi_fault_docs(rng, n):
     out = []
     J = "JSIGHT 0.3\n"
     for i in range(n):
-        k = i % 9
+        k = i % 11
         a, b, c = rng.sample(["alpha", "beta", "gamma", "delta", "eps", "zeta"], 3)
         if k == 0:     # several unused parameters in a Path schema (F8)
             doc = J + 'URL /p/{id}\n  Path\n    {"id": 1, "%s": 2, "%s": 3, "%s": 4}\n  GET\n    200 any\n' % (a, b, c)
@@ -35,6 +35,10 @@ def multi_fault_docs(rng, n):
             doc = J + 'ENUM @%s\n[1, 2]\nENUM @%s\n["a"]\nTYPE @t1\n{"x": 5 // {enum: @%s}}\nTYPE @t2\n{"y": 5 // {enum: @%s}}\nGET /x\n  200 any\n' % (a, b, a, b)
         elif k == 7:   # several responses with the same code + headers (OpenAPI maps)
             doc = J + 'GET /x\n  200\n    Headers\n      {"%s": "v", "%s": "w"}\n    Body any\n  200\n    Headers\n      {"%s": "v"}\n    Body\n      {"a": 1}\n  404 any\n  500 any\n' % (a, b, c)
+        elif k == 9:   # several different path parameters repeated in one path
+            doc = J + 'URL /%s/{%s}/%s/{%s}/{%s}/{%s}\n  GET\n    200 any\n' % (a, b, c, c, b, c) if i % 2 else J + 'GET /{%s}/{%s}/x/{%s}/{%s}/{%s}\n  200 any\n' % (a, b, c, a, b)
+        elif k == 10:  # several similar paths / duplicated interactions at once
+            doc = J + 'GET /%s/{x}\n  200 any\nGET /%s/{y}\n  200 any\nGET /%s/{z}\n  200 any\nPOST /%s/{u}\n  200 any\nPOST /%s/{v}\n  200 any\n' % (a, a, a, b, b)
         else:          # mutually recursive types + allOf + many rules
             doc = J + 'ENUM @e1\n[1]\nENUM @e2\n[2]\nENUM @e3\n[3]\nTYPE @%s\n{"x": @%s, // {optional: true}\n "e": 1 // {enum: @e1}\n}\nTYPE @%s\n{"y": @%s, // {optional: true}\n "e": 2 // {enum: @e2}\n}\nGET /x\n  200\n    { // {allOf: "@%s"}\n      "own": 3 // {enum: @e3}\n    }\n' % (a, b, b, a, a)
         out.append(doc.encode())
